@@ -45,6 +45,12 @@ package language
 //@   ensures[C06] operator == ">=" ==> Truth(result, left.(*Number).Value >= right.(*Number).Value)
 //@ func evalBinaryInfixExpression
 //@   requires typeis(left, "*Binary") && typeis(right, "*Binary")
+// C06: binary values are ordered by bytes.Compare of their payloads (uninterpreted: only "the same verdict as
+// bytes.Compare on these two payloads, in this order" is stated)
+//@   ensures[C06] operator == "<" ==> Truth(result, bytesCmp(left.(*Binary).Value, right.(*Binary).Value) < 0)
+//@   ensures[C06] operator == "<=" ==> Truth(result, bytesCmp(left.(*Binary).Value, right.(*Binary).Value) <= 0)
+//@   ensures[C06] operator == ">" ==> Truth(result, bytesCmp(left.(*Binary).Value, right.(*Binary).Value) > 0)
+//@   ensures[C06] operator == ">=" ==> Truth(result, bytesCmp(left.(*Binary).Value, right.(*Binary).Value) >= 0)
 
 // ---- C09: the built-in functions take a fixed number of operands; Function.Call checks it ----------------
 
@@ -262,7 +268,6 @@ package language
 //@   partial
 //@   ensures[C06] (Undef(val) || Undef(min) || Undef(max)) && !typeis(result, "*Error") ==> IsF(result)
 
-
 // ---- C07: update expressions ----------------------------------------------------------------------------------
 // the environment is a map from attribute names (aliases resolved) to objects; each operation changes exactly one entry
 //@ pred Real(e *Environment, name string) := (name in e.Aliases ? e.Aliases[name] : name)
@@ -449,11 +454,26 @@ package language
 
 //@ func (*Parser).peekTokenIs
 //@   inline
+// peekError records the failed expectation in the parser's error list
+//@ func (*Parser).peekError
+//@   partial
+//@   requires p != nil
+//@   ensures[C09] len(p.errors) >= 1
 //@ func (*Parser).expectPeek
 //@   partial
 //@   requires p != nil
 //@   ensures[C09] result == (old(p.peekToken.Type) == t)
 //@   ensures[C09] result ==> p.curToken == old(p.peekToken)
+// a failed expectation is recorded: the parser's error list is not empty afterwards
+//@   ensures[C09] !result ==> len(p.errors) >= 1
+
+// C09: an index access without its closing bracket is rejected - the nil node comes with a recorded error (the
+// callers evaluate the tree only when the error list is empty)
+//@ func (*Parser).parseIndexExpression
+//@   partial
+//@   requires p != nil
+//@   callsite[C09] (*Parser).expectPeek: arg.p == p && arg.t == RBRACKET
+//@   ensures[C09] result == nil ==> len(p.errors) >= 1
 
 // arguments are separated by commas: inside the list a token is consumed only to start the first argument, to step
 // onto a comma, to step past a comma, or to close the list; the list ends with the closing parenthesis
